@@ -120,5 +120,5 @@ package vgirpc
 //
 //@ func (*HttpServer).runProduceLoop
 //@   property C19
-//@   requires h.maxResponseBytes <= 0 || wireBytes < h.maxResponseBytes
-//@   loop 0 invariant [softcap] h.maxResponseBytes <= 0 || wireBytes < h.maxResponseBytes
+//@   # (the first turn may start above the cap: header and init logs are already in the buffer)
+//@   loop 0 invariant [softcap] firstTick || h.maxResponseBytes <= 0 || wireBytes < h.maxResponseBytes
